@@ -239,7 +239,7 @@ func c20(c *core.Ctx) {
 			c.Undecidedf("C20.R1", n+"|by-delta", fpos(c, f), "%s has no integer delta parameter", n)
 			continue
 		}
-		k, bad := 0, ""
+		k, bad, wrongShape := 0, "", ""
 		ssax.Instrs(f, false, func(_ *ssa.Function, in ssa.Instruction) {
 			call, ok := in.(*ssa.Call)
 			if !ok || ssax.ResolveCallee(&call.Call).Name != "sync/atomic.AddUint64" {
@@ -252,10 +252,39 @@ func c20(c *core.Ctx) {
 			if !ssax.AnyIn(ssax.Backward(call.Call.Args[1]), func(v ssa.Value) bool { return v == delta }) {
 				bad = ipos(c, in)
 			}
+			// dec…: the two's complement of delta is ^(delta-1); ^(1-delta) is delta-2 steps off
+			if strings.HasPrefix(n, "dec") {
+				amt := call.Call.Args[1]
+				for {
+					if cv, ok := amt.(*ssa.Convert); ok {
+						amt = cv.X
+						continue
+					}
+					break
+				}
+				if un, ok := amt.(*ssa.UnOp); ok && un.Op == token.XOR {
+					inner := un.X
+					for {
+						if cv, ok := inner.(*ssa.Convert); ok {
+							inner = cv.X
+							continue
+						}
+						break
+					}
+					if sb, ok := inner.(*ssa.BinOp); ok && sb.Op == token.SUB {
+						if k, isC := constInt(sb.X); isC && k == 1 && ssax.AnyIn(ssax.Backward(sb.Y), func(v ssa.Value) bool { return v == delta }) {
+							wrongShape = ipos(c, in)
+						}
+					}
+				}
+			}
 		})
 		pos := fpos(c, f)
 		if bad != "" {
 			pos = bad
+		}
+		if wrongShape != "" {
+			c.Violation("C20.R1", n+"|minus-delta", wrongShape, n+" subtracts by adding ^(1-delta) instead of ^(delta-1): only correct for delta = 1, a batch of several messages leaving at once moves the gauge the wrong way")
 		}
 		c.Check(k > 0 && bad == "", "C20.R1", n+"|by-delta", pos, "the gauge moves by the delta it is given", n+" changes a gauge by an amount that does not depend on its delta argument: a batch of several messages leaving (or entering) at once is counted as one")
 	}
